@@ -48,8 +48,8 @@ META = {
                   "fail, and the clean profile — 49% of the inputs — must pass every clause); json.dumps is modelled with "
                   "ensure_ascii=False (A_ascii); floats, DT() of the current instant, rtime=True, exponents / separators in NO "
                   "strings, \\x \\u \\N escapes and triple quotes are outside the model and never generated.",
-    "rule": "seeded construction programs of 14 profiles (clean 49%: no feature known to defeat a clause; othercur, mixed, nodt, "
-            "quotes, noncanon, cpprop, preadd, addhead, adjorder, noarg, derived, wild, malformed): S/SP/NP/VP/PP/AP/AdvP/CP "
+    "rule": "seeded construction programs of 15 profiles (clean 45%: no feature known to defeat a clause; othercur, mixed, nodt, "
+            "quotes, noncanon, cpprop, preadd, addhead, adjorder, adjmove, noarg, derived, wild, malformed): S/SP/NP/VP/PP/AP/AdvP/CP "
             "and root/subj/det/mod/comp/coord trees of depth<=3 over lexicon lemmata stratified by entry keys, every option "
             "of the makeOptionMethod table + a b ba en + tag + typ + dOpt + nat + maje + add/add@pos in both languages, "
             "decoded under either current language; non-trivial = a program built without warning whose (program, current "
@@ -276,7 +276,7 @@ WILD = dict(addhead=True, mixed=0.07, nodt=True, derived=True, qbad=0.2, canonic
 CLEAN = dict(addhead=False, mixed=0.0, nodt=False, derived=False, qbad=0.0, canonical=True, cpprop=False, adds_first=True,
              adjstable=True, noarg_invalid=False, invalid=0.0, density=[0, 0, 1, 1, 2, 2, 3], padd=0.12)
 PROFILES = {
-    "clean": (CLEAN, 49),
+    "clean": (CLEAN, 45),
     "othercur": (CLEAN, 8),                                      # decoded under the other current language
     "mixed": (dict(CLEAN, mixed=0.12), 6),                       # sub-expressions in the other language
     "nodt": (dict(CLEAN, nodt=True), 8),                         # NO / DT terminals, dOpt, nat
@@ -286,6 +286,7 @@ PROFILES = {
     "preadd": (dict(CLEAN, adds_first=False, padd=0.3), 3),      # options called before add()
     "addhead": (dict(CLEAN, addhead=True, padd=0.3), 3),         # the head of a phrase attached by add()
     "adjorder": (dict(CLEAN, adjstable=False), 2),               # adjectives on the wrong side of the noun
+    "adjmove": (dict(CLEAN, padd=0.0), 4),                       # ONE adjective that Phrase.add has to reposition
     "noarg": (dict(CLEAN, noarg_invalid=True), 1),               # tn() without argument
     "derived": (dict(CLEAN, derived=True), 3),                   # props derived from the lexicon and re-applicable
     "wild": (WILD, 5),
@@ -711,10 +712,44 @@ class Gen:
             for _ in range(n):
                 p["calls"].append(self.one_call(p))
 
+    def adjmove(self, lang):
+        """an NP whose single adjective is given on the side from which Phrase.add moves it (a stable order results):
+        English NP(D,N,A) or NP(D,N).add(A); French NP(D,A,N) with a post-posed adjective — alone, inside a sentence of
+        the same language, or as a foreign-language NP inside a sentence of the other language"""
+        r = self.rng
+        nl = lang if r.random() < 0.5 else self.otherlang(lang)   # language of the NP
+        a = self.term(nl, "A")
+        a["calls"] = [c for c in a["calls"] if not (c[0] == "o" and c[1] == "pos")]
+        n = self.term(nl, "N")
+        d = [self.term(nl, "D")] if r.random() < 0.8 else []
+        np = {"k": "NP", "lang": nl, "elems": [], "calls": []}
+        if self.adj_side(a, nl) == "pre":          # English default, French `pos: pre` adjectives: written AFTER the noun
+            if r.random() < 0.5:
+                np["elems"] = d + [n, a]
+            else:
+                np["elems"] = d + [n]
+                np["calls"] = [["add", a, r.choice([None, len(d) + 1])]]
+        else:                                       # post-posed adjective written BEFORE the noun
+            if r.random() < 0.6:
+                np["elems"] = d + [a, n]
+            else:
+                np["elems"] = d + [n]
+                np["calls"] = [["add", a, len(d)]]
+        self.add_calls(np)
+        x = r.random()
+        if x < 0.2 and nl == lang:
+            return np
+        vp = self.phrase(lang, "VP", [self.term(lang, "V")], keep=1)
+        if x < 0.6:
+            return self.phrase(lang, "S", [np, vp], keep=2)
+        return self.phrase(lang, "S", [self.term(lang, "Pro"), self.phrase(lang, "VP", [self.term(lang, "V"), np], keep=2)], keep=2)
+
     def program(self, profile="wild"):
         self.cfg = PROFILES[profile][0]
         r = self.rng
         lang = r.choice(["en", "fr"])
+        if profile == "adjmove":
+            return self.adjmove(lang)
         x = r.random()
         if x < 0.2:
             kinds = [k for k in TERMS if self.cfg["nodt"] or k not in ("NO", "DT")]
@@ -1004,6 +1039,16 @@ EXPLAINS = [
 ]
 
 
+def skeleton(j):
+    """the tree of a JSON form reduced to constituent types, lemmata and the ORDER of the children"""
+    if not isinstance(j, dict):
+        return None
+    kind = j.get("terminal") if "lemma" in j else j.get("phrase", j.get("dependent"))
+    kids = [skeleton(c) for c in j.get("elements", [])] if "phrase" in j else \
+        ([skeleton(j.get("terminal"))] + [skeleton(c) for c in j.get("dependents", [])] if "dependent" in j else [])
+    return (kind, str(j.get("lemma")) if "lemma" in j else None, tuple(kids))
+
+
 def oracle(line, ans, obs, table):
     """list of (signature, detail) : the clauses of the property the implementation violates on this input"""
     if ans.get("warn"):
@@ -1030,7 +1075,12 @@ def oracle(line, ans, obs, table):
         for aspect, detail in bad:
             if feats is None:
                 feats = features(line, table)
-            cause = next((f for f, ex in EXPLAINS if f in feats and aspect in ex.get(r, ())), None)
+            here = set(feats)
+            # the non-idempotent re-ordering of Phrase.add explains a failure only when the decoded expression really has
+            # its children in another order (anything else on such an input is a failure of its own)
+            if "adjorder" in here and ("j1" not in o or skeleton(o["j1"]) == skeleton(obs["j"])):
+                here.discard("adjorder")
+            cause = next((f for f, ex in EXPLAINS if f in here and aspect in ex.get(r, ())), None)
             sig = "%s:%s:%s" % (r, aspect, cause or "unexplained")
             fails.append((sig, "%s [source: %s]" % (detail, str(obs["s"])[:300])))
     return fails
